@@ -59,6 +59,10 @@ def positions(call):
         f"$[?!({call})]", f"$[?{call} == 1]", f"$[?1 != {call}]", f"$[?{call} < {call}]",
         f"$[?fv_l({call})]", f"$[?fl_l({call})]", f"$[?fn_l({call})]", f"$[?@[?{call}]]",
         f"$[?count(@[?{call}]) == 1]",
+        # beside another call that is a valid test on its own; under the other comparison operators
+        # next to a logical operator (precedence decides what the comparand is)
+        f"$[?f_l() && {call}]", f"$[?{call} || f_n()]", f"$[?@.a && f_l() && {call}]", f"$[?f_l() && ({call})]",
+        f"$[?fl_l(f_n() && {call})]", f"$[?@.a && {call} <= 1]", f"$[?{call} >= 2 || @.b]",
     ]
 
 
